@@ -73,12 +73,20 @@ func TextAt(ls []Layer, i int) string {
 // Chain returns all layers from s down its single-cause chain.
 func Chain(s *Spec) []Layer {
 	var out []Layer
-	for c := s; c != nil; c = c.C {
+	for c := s; c != nil; {
 		ls := layersOf(c)
 		out = append(out, ls...)
 		if isBarrierKind(c.K) {
 			break // the cause is hidden, chain ends
 		}
+		if c.K == "umulticauser" && len(c.X) > 0 {
+			// a multi-error type that also has a Cause() method: the
+			// library follows Cause() (the first branch) as single cause
+			// and explores all branches as well.
+			c = c.X[0]
+			continue
+		}
+		c = c.C
 	}
 	return out
 }
@@ -425,6 +433,14 @@ func layersOf(s *Spec) []Layer {
 			t += "; " + Text(x)
 		}
 		l := mk(s, "*gen.UMultiCause", Leaf, t)
+		l.Multi = s.X
+		return []Layer{l}
+	case "umulticauser":
+		t := S(0)
+		for _, x := range s.X {
+			t += "; " + Text(x)
+		}
+		l := mk(s, "*gen.UMultiCauser", Leaf, t)
 		l.Multi = s.X
 		return []Layer{l}
 	case "rmulti":
